@@ -18,3 +18,6 @@ pub use connection::WriteCoalescingDelay;
 pub use connection_pool::PoolSize;
 pub(crate) use connection_pool::{ConnectivityChangeEvent, NodeConnectionPool, PoolConfig};
 pub(crate) mod tls;
+
+#[cfg(scylla_verif)]
+pub(crate) use connection::verif_api;
